@@ -413,7 +413,7 @@ static std::string verdict_(const Res &c, const Res &p) {
   if (c.threw != p.threw)
     return std::string("diff status c=") + (c.threw ? "ERROR(" + c.what + ")" : "OK[" + c.val + "]") + " cpp=" +
            (p.threw ? "throws(" + p.what + ")" : "returns[" + p.val + "]");
-  if (c.threw) return c.what == p.what ? "ok same" : "diff message c=(" + c.what + ") cpp=(" + p.what + ")";
+  if (c.threw) return c.what == p.what ? "ok same error" : "diff message c=(" + c.what + ") cpp=(" + p.what + ")";
   return c.val == p.val ? "ok same" : "diff value c=[" + c.val + "] cpp=[" + p.val + "]";
 }
 // the C side first, then the C++ side (argument evaluation order is unspecified otherwise)
@@ -425,8 +425,12 @@ template <class FC, class FP> static std::string verdict_seq(FC fc, FP fp) {
 #define verdict(C_, P_) verdict_seq([&]() -> Res { return C_; }, [&]() -> Res { return P_; })
 // several observations: all must be `ok same`
 static std::string all_same(const std::vector<std::string> &vs) {
-  for (const std::string &v : vs) if (v != "ok same") return v;
-  return "ok same";
+  bool err = false;
+  for (const std::string &v : vs) {
+    if (v == "ok same error") err = true;
+    else if (v != "ok same") return v;
+  }
+  return err ? "ok same error" : "ok same";
 }
 
 #define CC(...) run_c([&](std::string &out) -> PRIMITIV_C_STATUS { (void)out; __VA_ARGS__ })
@@ -997,6 +1001,17 @@ static void register_training() {
     obs.push_back(verdict(CC(PRIMITIV_C_BOOL r = 9; PRIMITIV_C_STATUS st = primitivIsValidParameter(c(&a), &r); out = b2s(r != 0); return st;),
                           PP(return b2s(b.valid());)));
     return all_same(obs); });
+  reg("primitivApplyTensorParameter", [](Env &E, Args &A) -> std::string {
+    // S T gsel [-7 = invalid parameter]
+    bool iv = A.n.size() && A.n.back() == -7;
+    Parameter p;
+    if (!iv) p.init(A.sh(0), A.t(0).v, E.dev);
+    Graph *g = A.u(0) ? &E.g : nullptr;
+    return all_same({
+      verdict(CC(primitivTensor_t *y = nullptr; PRIMITIV_C_STATUS st = primitivApplyTensorParameter(c(&p), &y); fin(st, y, out); return st;),
+              PP(return show(F::parameter_tensor(p));)),
+      verdict(CC(primitivNode_t *y = nullptr; PRIMITIV_C_STATUS st = primitivApplyNodeParameter(c(&p), c(g), &y); fin(st, y, out); return st;),
+              PP(return show(F::parameter_node(p, g));))}); });
   reg("primitivSaveParameter", [](Env &E, Args &A) -> std::string {
     // S T with_stats devsel [-7 = invalid parameter]: save through both, compare the bytes; load each other's file
     bool iv = A.n.size() && A.n.back() == -7;
